@@ -9,9 +9,10 @@ generic in the scalar type; `YeeIO` runs it on binary64 (`r`) and on complex bin
   fdtdx/core/physics/metrics.py     compute_energy with |·|² (`jnp.square(jnp.abs(E))`), compute_poynting_flux with
                                     `E × conj(H)` followed by `.real` in the detector                      → `detEnergyG`, `poyntingG`
 
-Driver ops: those of `YeeIO` (`fwd r|c …`), plus `tfsfamp cplx re im amp quad` → one value.
+Driver ops: those of `YeeIO` (`fwd r|c …`), `pmlfwd` of the CPML model (through `C10Ext.handleExt`), plus `tfsfamp cplx re im amp quad` → one value.
 -/
 import FdtdxModel.YeeIO
+import FdtdxModel.C10Ext
 namespace Fdtdx.C11
 open Fdtdx.Yee
 
@@ -69,6 +70,9 @@ def ampOp : List String → String
 
 def handle : List String → String
   | "tfsfamp" :: rest => ampOp rest
-  | toks => YeeIO.handleYee toks
+  | toks =>
+    match C10.handleExt toks with
+    | "bad-op" => YeeIO.handleYee toks
+    | r => r
 
 end Fdtdx.C11
